@@ -171,3 +171,20 @@ Print Assumptions C14_skolem_suite_model.
 Theorem C14_skolem_safe_no_slash : forall i, safe i = true -> no47 i = true.
 Proof. exact safe_no47. Qed.
 Print Assumptions C14_skolem_safe_no_slash.
+
+(* Colour refinement core (Color.distinguish), hashes abstracted as equality of
+   item multisets: one step only splits a colour class, and the signature a node
+   is split by does not depend on blank-node labels - provided no blank node is
+   a predicate (otherwise the predicate's label is part of the item: FC14a). *)
+From Coq Require Import Permutation.
+From RV Require Import Iso.Refine.
+Theorem C14_distinguish_splits : forall keq g c hW W,
+  Permutation (flat_map nodes (distinguish keq g c hW W)) (nodes c).
+Proof. exact distinguish_splits. Qed.
+Print Assumptions C14_distinguish_splits.
+
+Theorem C14_signature_renaming_invariant : forall f g hW W n,
+  inj_on f (blanks g) -> nopredb g -> within g n -> (forall w, In w W -> within g w) ->
+  sig (rename_g f g) hW (map (rename f) W) (rename f n) = sig g hW W n.
+Proof. exact sig_rename. Qed.
+Print Assumptions C14_signature_renaming_invariant.
